@@ -183,6 +183,7 @@ type vfWorld struct {
 type vfSink struct {
 	mu     sync.Mutex
 	frames []string
+	peer   *websocket.Conn // the client end (native mode)
 }
 
 func (s *vfSink) add(f string) {
@@ -236,7 +237,7 @@ func vfNativeWS() (*websocket.Conn, *vfSink) {
 		panic(err)
 	}
 	server := <-ch
-	sink := &vfSink{}
+	sink := &vfSink{peer: client}
 	go func() {
 		for {
 			_, data, err := client.ReadMessage()
